@@ -993,7 +993,14 @@ def run(ctx):
     ctx.prepare("C03.v")
     ctx.exhaustive = False
     for f in (run_dump_unit, run_ends_unit, run_joiner_unit, run_merge_unit, run_extended_unit, run_pipeline):
-        t0 = time.time(); f(ctx, quick); ctx.notes.append("%s: %.0f s" % (f.__name__, time.time() - t0))
+        t0 = time.time()
+        try: f(ctx, quick)
+        except Exception:
+            # a changed implementation may break an adapter (e.g. another type in the printer's bookkeeping): report it, and let the
+            # remaining sections - in particular the output-file specification - still look for a concrete failing input
+            import traceback
+            ctx.broken("harness:%s" % f.__name__, "exception in this section of the check:\n" + traceback.format_exc()[-2500:])
+        ctx.notes.append("%s: %.0f s" % (f.__name__, time.time() - t0))
     ctx.rule("pipeline: isoquant.py under a tracing wrapper (inputs/outputs of GFFPrinter.dump, correct_novel_transcript_ends, get_exons, TranscriptToGeneJoiner, create_extended_storage are logged, behaviour unchanged) on the bundled chr9 data with each of the 8 --model_construction_strategy presets, without --genedb, with --report_novel_unspliced/--report_canonical all; on generated worlds (4 chromosomes named chr10/chr2/chrX/chr1: two ordinary, one annotated without reads, one with reads but no annotation; known, truncated, exon-skipping and gene-extending reads) with sampled presets, 1-3 threads, with and without --genedb; and on the two-region gene of finding #24. Every traced call is replayed through the model; each whole output file is predicted by the model from the traced calls (dumps per part, parts in natural name order); gtf_tr_ok is evaluated in Coq for every transcript of both GTFs against the input GTF and the FASTA lengths, extended_ok per run")
     ctx.notes.append("decided inside Coq: model = implementation for every unit and traced call, whole-file prediction, per-transcript gtf_tr_ok (>= 1 exon, exons strictly increasing and disjoint after sorting, printed order by coordinate (descending allowed on '-'), 1 <= start <= end <= chromosome length, transcript line = hull and unique, exactly one gene line with its gene id, same chromosome and strand, containing it, reference ids verbatim), extended_ok. "
                      "Python side (search support only): parsing GTF/FASTA text into records, joining a transcript with the gene lines carrying its gene id and with the input annotation by id, grouping trace events by printer, the 9-column / header-position sanity check, the float-fragility screen of joiner scores, statistics. "
